@@ -19,7 +19,7 @@ def pick(rnd, i):
     return case, make, ""
 
 
-CHECK = ComponentCheck("C16", pick)
+CHECK = ComponentCheck("C16", pick, suite=(("Stack",), ("test/lib/test_stack.py",)))
 shards, run_shard = CHECK.shards, CHECK.run_shard
 RULE = ("histories = hostile random read/peek/write/clear sequences on Stack of depth 1..13 (power of two or not) with unique payload ids and a drain "
         "phase; non-trivial distinct case = (depth, simultaneous read+write at full / level 1 / other, clear racing read/write, level)")
